@@ -38,3 +38,38 @@ From Rosmar Require Import KvC14Trace.
 Theorem C14_checker_accepts_every_model_history : forall c : scase, wf_case c -> chk_C14_kv (c, srun c) = true.
 Proof. exact C14_kv_sound. Qed.
 Print Assumptions C14_checker_accepts_every_model_history.
+
+(* A firing is not atomic: the sweep reads, collection by collection, the keys whose expiry has passed and then removes
+   them one by one, and other calls run in between.  Store.v splits such a firing into SExpireScan wc (the sweep has
+   read the keys of collection wc) and SExpireK wc keys parked (it goes on), with any calls between them; the checker
+   above judges those steps too.  For every store, time, collection, EVERY list of keys (whatever the sweep's query
+   had returned) and whatever was done since: each step of a sweep removes exactly the documents it is about whose
+   expiry has passed when the step is taken, and leaves every other document exactly as it was ... *)
+From Rosmar Require Import Sweep.
+Theorem C14_sweep_correct : forall s x o, tables_ok s -> is_sweep o = true ->
+  let res := sstep s x o in
+  (forall k r, get_doc s k = Some r -> due (x_now x) r -> takes s o k = true ->
+     is_expired (sr_store res) k /\ exists e, In (fst k, snd k, e) (sr_events res) /\ e_isDel e = true)
+  /\ (forall k r, get_doc s k = Some r -> (~ due (x_now x) r \/ takes s o k = false) -> get_doc (sr_store res) k = Some r)
+  /\ (forall k, get_doc s k = None -> get_doc (sr_store res) k = None)
+  /\ (forall name, coll_id (sr_store res) name = coll_id s name).
+Proof. exact sweep_correct. Qed.
+Print Assumptions C14_sweep_correct.
+
+(* ... so a document whose expiry is 0, or lies after the time of the step, survives every step of every sweep, also
+   one whose key the sweep had read before the document was given its new expiry: never early *)
+Theorem C14_never_early_in_an_interrupted_sweep : forall s x o k r, tables_ok s -> is_sweep o = true ->
+  get_doc s k = Some r -> (r_exp r = 0 \/ x_now x < r_exp r) -> get_doc (sr_store (sstep s x o)) k = Some r.
+Proof. exact never_early. Qed.
+Print Assumptions C14_never_early_in_an_interrupted_sweep.
+
+(* The sweep of the pinned tree deleted every key its query had returned without looking again: the statement is false
+   of it.  Witness (replayed on the code: corpus/kv/w19_sweep_window.jsonl; repaired by fix 2068c64 of /repo): a document
+   whose deadline has passed, the sweep's query, the document rewritten with no expiry, the sweep goes on. *)
+Theorem C14_unchecked_sweep_refuted :
+  let s := sfinal_from store0 window_history in
+  exists r, get_doc s (1, "k") = Some r /\ r_exp r = 0 /\ r_value r = Some "v2"
+            /\ get_doc (sstep_unchecked s (mkSctx 4 3000000001 60) default_coll ["k"]) (1, "k") <> Some r
+            /\ get_doc (sr_store (sstep s (mkSctx 4 3000000001 60) (SExpireK default_coll ["k"] []))) (1, "k") = Some r.
+Proof. exact unchecked_sweep_refuted. Qed.
+Print Assumptions C14_unchecked_sweep_refuted.
